@@ -617,7 +617,12 @@ func runCheck(repo, verif, prop, tier string, verbose bool) int {
 		assumptions = append(assumptions, x)
 	}
 	for _, g := range e.contracts.guards {
-		if g.Class != "mutex" {
+		switch g.Class {
+		case "mutex", "under":
+			// checked at every access
+		case "immutable":
+			assumptions = append(assumptions, fmt.Sprintf("fields %s.{%s} are immutable after construction: writes are checked (only to freshly allocated objects); that constructors finish before the object is shared is taken on declaration (%s)", g.Struct, strings.Join(g.Fields, ","), g.Note))
+		default:
 			assumptions = append(assumptions, fmt.Sprintf("protection class taken on declaration: %s.{%s} %s %s", g.Struct, strings.Join(g.Fields, ","), g.Class, g.Note))
 		}
 	}
@@ -820,6 +825,28 @@ func (e *Engine) notAViolation(f *Obligation, name string, base map[string]Shape
 		}
 		if proofInternal[f.Kind] && !sameShape(b, e.shapeOf(fn)) {
 			return "the structure of " + k + " (loops, closures, captured variables, signature) differs from the baseline its proof was written against"
+		}
+	}
+	for _, k := range []string{owner, f.Fn} {
+		if g := e.fnRefsLostConst(e.fnByKey[k]); g != "" {
+			return "the initial value of " + g + " was known to the baseline proof and cannot be extracted from this tree (its initialiser was rewritten); " + k + " depends on it"
+		}
+	}
+	if f.Kind == "safe" {
+		// a run-time check the baseline did not have (new code): needs an annotation, not an alarm
+		class := ""
+		for _, cl := range []string{"panic", "nil", "index", "slice", "assert", "mapwrite", "div", "conv", "send", "nilcall"} {
+			if strings.Contains(name, "safe:"+cl) {
+				class = cl
+			}
+		}
+		if class == "nilcall" {
+			class = "call"
+		}
+		if fn := e.fnByKey[owner]; fn != nil && class != "" {
+			if bc, ok := e.baseNames.SafeCounts[owner]; ok && safeCounts(fn)[class] > bc[class] {
+				return fmt.Sprintf("%s has more run-time checks of class %q than in the baseline (%d > %d): new code needs its own annotation", owner, class, safeCounts(fn)[class], bc[class])
+			}
 		}
 	}
 	if f.OpqDep != "" {
